@@ -25,6 +25,8 @@ func runHistory(t *rapid.T, col *evid.Collector, f Focus, weights map[string]int
 		"mark":           m.opMark,
 		"unmark":         m.opUnmark,
 		"resubmitMarked": m.opResubmitMarked,
+		"block":          m.opBlock,
+		"prove":          m.opProve,
 	}
 	// rapid's Repeat picks actions uniformly; weights are realised by aliasing an action under
 	// several names.
